@@ -8,7 +8,7 @@ from wa.paths import enum_paths
 from wa.pathsym import eval_path, cond_truth
 from wa import fmtlit
 from . import chess
-from .session import command_loop, arms
+from .session import command_loop, arms, dispatch, state_roots, resolve_operand, _becomes_board, _board_place
 
 FIND = "uci::find_and_play_best_move"
 SBM = "uci::send_best_move_to_gui"
@@ -140,24 +140,21 @@ def r3_35(ctx):
     b = f.body(LOOP_FN)
     ex = Exprs(b)
     h, loop = command_loop(b, ex)
-    am = arms(b, ex, loop)
-    if "go" not in am:
+    dp = dispatch(f, b, ex, h, loop)
+    if "go" not in dp.words:
         raise AnchorMissing("no `go` arm")
-    s, tt, ft = am["go"]
-    calls = [(bb, t) for bb, t in b.iter_calls(callee=FIND) if b.edge_dominates((s, tt), bb) or bb == tt]
+    s = dp.words["go"]
+    reg = dp.region("go")
+    calls = [(bb, t) for bb, t in b.iter_calls(callee=FIND) if bb in reg]
     ctx.ob("go-arm:one-search", len(calls) == 1, b.where(b.term_loc(s)), "%d calls of find_and_play_best_move in the go arm" % len(calls))
-    boards = [l for l, n in b.names.items() if b.local_ty(l) == "board::BoardState"]
+    roots = state_roots(f, b, h, loop)
     for bb, t in calls:
-        assigned = t["dest"]["local"] in boards
-        for loc, st in b.iter_stmts():
-            if st["k"] == "assign" and st["place"]["local"] in boards and not st["place"]["proj"]:
-                e = ex.rvalue(st["rv"], loc)
-                if e[0] == "call" and e[1] == FIND and e[3] == b.term_loc(bb):
-                    assigned = True
+        assigned = _becomes_board(f, b, ex, roots, bb, t, FIND)
         ctx.ob("go-arm:board-becomes-played-position", assigned, b.where(b.term_loc(bb)), "the board returned by find_and_play_best_move replaces the current board")
-        args = [operand_alias(b, a) for a in t["args"]]
-        ctx.ob("go-arm:searches-current-board", any(a and a[0] in boards for a in args), b.where(b.term_loc(bb)), "the current board is what is searched")
-        ok_nodiv = not exits_anywhere(b, tt, h)
+        searched = any(_board_place(f, b, roots, resolve_operand(b, a)) for a in t["args"])
+        ctx.ob("go-arm:searches-current-board", searched, b.where(b.term_loc(bb)), "the current board is what is searched")
+        from .uci_rules import _is_exit_call
+        ok_nodiv = not any(_is_exit_call(b.term(x)) for x in dp.reach("go"))
         ctx.ob("go-arm:returns-to-loop", ok_nodiv, b.where(b.term_loc(s)), "the go arm contains no process exit and falls through to the next command")
     fb = f.body(FIND)
     fex = Exprs(fb)
@@ -310,4 +307,10 @@ def r3_6(ctx):
         if st["k"] == "assign" and st["rv"]["k"] == "aggregate" and st["rv"].get("agg") == "array":
             e = pex.rvalue(st["rv"], loc)
             ks = {x[2] for x in e[3] if x[0] == "agg"}
+    # the table may be a named constant: read whatever array of kinds a call (into_iter / iter) is given
+    for bb, t in pb.iter_calls():
+        for a in pex.call_args(bb):
+            for x in subexprs(a):
+                if x[0] == "agg" and x[1] == "array" and x[3] and all(y[0] == "agg" and y[1] == "board::PieceKind" for y in x[3]):
+                    ks |= {y[2] for y in x[3]}
     ctx.ob("promote_pawn:kinds", ks == chess.PROMOTION_KINDS, pb.file, "promotion fan-out over %s" % sorted(ks))
